@@ -23,6 +23,7 @@ ASSUMPTIONS = ["C05.R4 (broadcast wakes every queued waiter) and C04.R3 (enqueue
 RULES_DOC = dict(common.SHARED_DOC)
 RULES_DOC["X4"] = common.X4_DOC
 RULES_DOC["X5"] = common.X5_DOC
+RULES_DOC["R4"] = "= C06.R2: a waiter released by the last arriver is pushed before it stops being counted as blocked (it is never stranded in a pool whose stream has terminated)"
 RULES_DOC.update({
     "R1": "barrier_wait: counter ++/compare/reset inside the lock; non-last arm enqueues with the barrier's list+lock; last arm broadcasts and resets before release",
     "R2": "barrier_wait: every success path waited or broadcast, exactly one of the two",
@@ -231,3 +232,5 @@ def run(P, rep, tier):
     common.run_shared(P, rep)
     rule_R1_R2(P, rep)
     rule_R3(P, rep)
+    from . import C06
+    common.borrow(rep, P, C06.rule_R2, "R4")
